@@ -13,15 +13,16 @@
 -/
 namespace Eds
 
-abbrev Time := Int
-abbrev Dur := Int
+/- `Time` / `Dur` are notations for `Int` (not definitions), so that `omega` sees through them. -/
+notation "Time" => Int
+notation "Dur" => Int
 
 /-- Wire value of Go's zero `time.Time` (harness: `canon.Time`). -/
 def zeroTime : Time := -4000000000000000000
 def sec : Int := 1000000000
 def minute : Int := 60 * sec
 
-def Time.isZero (t : Time) : Bool := t == zeroTime
+def isZeroTime (t : Time) : Bool := t == zeroTime
 
 structure KV where
   k : String
